@@ -402,3 +402,41 @@ mod tests {
         assert!(!within(e, x, 11, B::times3));
     }
 }
+
+#[cfg(test)]
+mod fma_oracle_tests {
+    use crate::big::*;
+    use crate::c11::correctly_rounded;
+
+    fn lcg(s: &mut u64) -> u64 {
+        *s = s.wrapping_mul(6364136223846793005).wrapping_add(1442695040888963407);
+        *s ^ (*s >> 29)
+    }
+
+    #[test]
+    fn hardware_fma_satisfies_oracle_and_neighbours_do_not() {
+        let mut s = 7u64;
+        for i in 0..200000 {
+            let fx = (lcg(&mut s) >> 12) | (1023u64 << 52) | ((lcg(&mut s) & 1) << 63);
+            let fy = (lcg(&mut s) >> 12) | (1023u64 << 52) | ((lcg(&mut s) & 1) << 63);
+            let d = (lcg(&mut s) % 120) as i64 - 60;
+            let mut fz = (lcg(&mut s) >> 12) | (((1023 + d) as u64) << 52) | ((lcg(&mut s) & 1) << 63);
+            if i % 7 == 0 {
+                fz &= !0xffff_ffffu64; // short significands produce ties and exact cases
+            }
+            let (x, y, z) = (f64::from_bits(fx), f64::from_bits(fy), f64::from_bits(fz));
+            let (x, y) = if i % 5 == 0 { (f64::from_bits(fx & !0x7ff_ffffu64), f64::from_bits(fy & !0x3ff_ffffu64)) } else { (x, y) };
+            let r = x.mul_add(y, z);
+            let emin = (-104i32).min((1023 + d) as i32 - 1075);
+            let exact = prod(x, y, emin).unwrap().add(sc(z, emin).unwrap());
+            if r == 0.0 || !r.is_normal() {
+                continue;
+            }
+            assert!(correctly_rounded(r, exact, emin), "{} {} {} -> {}", x, y, z, r);
+            let up = f64::from_bits(r.to_bits() + 1);
+            let dn = f64::from_bits(r.to_bits() - 1);
+            assert!(!correctly_rounded(up, exact, emin), "up {} {} {} -> {}", x, y, z, r);
+            assert!(!correctly_rounded(dn, exact, emin), "dn {} {} {} -> {}", x, y, z, r);
+        }
+    }
+}
